@@ -188,8 +188,9 @@ fn generate_global_branch(
                     cachelito_core::InvalidationRegistry::global().register_callback(
                         #fn_name_str,
                         move || {
+                            let mut order_write = #order_ident.lock();
                             #cache_ident.write().clear();
-                            #order_ident.lock().clear();
+                            order_write.clear();
                         }
                     );
                 });
